@@ -18,9 +18,15 @@ CFG = dict(
     lean=["Ssv.Props.C07", "Ssv.Props.C07Wedge"],
     engines=[dict(harness="qbft", driver="m_qbft", args=["-mode", "c07"], case_delim="reset",
                   n_quick=14000, n_thorough=200000, thorough_seeds=4, n_search=60000, search_seeds=3)],
-    rule="adversarial prefixes as for C01 (n=4,7; ≤ f Byzantine; drops, duplicates, reorderings, timeouts, compaction on/off), then the Byzantine operators go silent and the "
-         "constructed continuation runs on the real controllers: everything ever sent is delivered (the leader of a round receives its round-changes with the highest prepared "
-         "one on the quorum edge), undecided operators time out, at most f+3 rounds; 4 directed scenarios first; every correct operator's trace is diffed against the Lean model",
+    rule="adversarial prefixes as for C01 (n=4,7; ≤ f Byzantine; drops, duplicates, reorderings, timeouts, compaction on/off, own-network faults; operators running ahead on their own "
+         "timers and pulling others by f+1 announcements, lost round-change announcements; real rotating leader), then the Byzantine operators go silent and the constructed "
+         "continuation runs on the real controllers: everything ever sent is delivered (the leader of a round receives its round-changes with the highest prepared one on the "
+         "quorum edge); TIMERS FIRE AS ARMED — only the one timer an operator armed last, with the height and round it was armed for (Controller.OnTimeout discards others; an "
+         "operator without a live timer never times out); at most f+3 rounds. Step-level oracles on the real controller after every op of a correct operator: "
+         "timeout-without-progress (every round up to the cut-off: round+1, accepted proposal cleared, timer re-armed, exactly one round-change carrying the lock), "
+         "undecided-operator-without-live-round-timer, not-pulled-by-f+1-round-changes, correct-leaders-proposal-refused (a correct round-robin leader's proposal must be "
+         "accepted by every correct undecided operator in a round ≤ its round). 9 directed scenarios first (incl. 14 timeouts up to the cut-off for n=4,7; pulled-then-own-timer; "
+         "laggard that timed out once; future-round proposal reaching a laggard first); every correct operator's trace is diffed against the Lean model",
     trusted_base=["harness abstraction + scheduler + continuation (harness/cmd/qbft/simsearch.go, directed.go)", "BLS / SHA-256 abstracted"],
     assumptions=["timely delivery among correct operators after the chosen point; every message a correct operator ever sent is eventually delivered (drops = delays)"],
     explanation="KNOWN-FINDING lines: (1) wedge by mixed locks (spec-aligned justification predicate), (2) laggards with the runner's compaction (consequence of the C06 finding), (3) a lone laggard behind operators that decided through a received certificate (they neither time out nor re-broadcast it).",
